@@ -387,6 +387,25 @@ class OdeModel:
                         return r, b
         return None
 
+    def _known_arith(self, v) -> bool:
+        """v is built by + - * and integer constants from species.index(..), n_spec and n_eqns only"""
+        v = simp(v)
+        if self.species_index(v) is not None or self.is_n_spec(v) or self.is_n_eqns(v):
+            return True
+        if v[0] == "const":
+            return isinstance(v[1], int) and not isinstance(v[1], bool)
+        if v[0] == "binop" and v[1] in ("Add", "Sub", "Mult", "FloorDiv", "Mod"):
+            return self._known_arith(v[2]) and self._known_arith(v[3])
+        if v[0] == "unop" and v[1] in ("USub", "UAdd"):
+            return self._known_arith(v[2])
+        # an element of set(..) / sorted(..) / dict.fromkeys(..) of a list of species positions: the positions are understood, the
+        # domain they are drawn from is not the list itself (occurrences merged / reordered)
+        if v[0] == "elem" and v[1][0] == "call" and v[1][1] in (("global", "set"), ("global", "frozenset"), ("global", "sorted"), ("global", "reversed"),
+                                                                 ("attr", ("global", "dict"), "fromkeys")) and len(v[1][2]) >= 1:
+            inner = simp(("elem", v[1][2][0], v[2]))
+            return self.species_index(inner) is not None
+        return False
+
     def species_index(self, v):
         """SPEC.index(x) -> x, else None."""
         if v[0] == "meth" and v[1] == self.SPEC and v[2] == "index" and len(v[3]) == 1 and not v[4]:
@@ -441,7 +460,9 @@ class OdeModel:
             s.row = ("tgas",)
         else:
             # an index read from a list built elsewhere is not understood, which is not the same as wrong
-            s.problems.append(("unrec" if contains(row, _opaque) else "viol", "row", f"row index is neither species.index(..) nor n_spec: {show(row)}"))
+            # wrong only when it is arithmetic over positions that ARE understood (`species.index(r) + 1`, `n_spec - 1`); an index read
+            # from a list / record / call built elsewhere is not understood, which is not the same as wrong
+            s.problems.append(("viol" if self._known_arith(row) else "unrec", "row", f"row index is neither species.index(..) nor n_spec: {show(row)[:160]}"))
         if col is not None:
             cx = self.species_index(col)
             if cx is not None:
@@ -449,7 +470,7 @@ class OdeModel:
             elif col[0] == "elem" and col[1][0] == "call" and col[1][1] == ("global", "range"):
                 s.col = ("range", col[1][2], col[2])
             else:
-                s.problems.append(("unrec" if contains(col, _opaque) else "viol", "col", f"column index is not species.index(..): {show(col)}"))
+                s.problems.append(("viol" if self._known_arith(col) else "unrec", "col", f"column index is not species.index(..): {show(col)[:160]}"))
         # --- kind by enclosing loop
         kind = None
         if outer is not None:
@@ -469,7 +490,10 @@ class OdeModel:
         if kind is None:
             # a loop that does walk the reactions / thermal processes, but in a form that is not understood, is "cannot analyse"
             lists = (self.REAC_FIELD, self.REAC, self.HEAT, self.COOL)
-            if outer is not None and any(x in lists for lp_ in f.loops for x in walk(simp(lp_.iter))):
+            foreign = outer is not None and any(isinstance(x, tuple) and x and ((x[0] == "meth" and x[1] in (("param", "self"), ("param", "cls"))) or x[0] in ("unknown", "carried", "after", "acc"))
+                                                for lp_ in f.loops for x in walk(simp(lp_.iter)))
+            if outer is not None and (foreign or any(x in lists for lp_ in f.loops for x in walk(simp(lp_.iter)))):
+                # (also: a loop over what a helper method returns / over a list built elsewhere -- the entities it walks are not known)
                 s.problems.append(("unrec", "loop-shape", f"store into {f.target} inside a loop over {show(simp(outer.iter))[:80]}: loop form not understood"))
             else:
                 s.problems.append(("viol", "unexpected-writer", f"store into {f.target} outside the reaction/thermal/modifier loops"))
